@@ -5,9 +5,9 @@ import G3D.Proofs.SameSet
     `eqv` models `__eq__` (exact reading), `hashKey` models the tuple the CURRENT `__hash__` rounds and hashes,
     with every rounded float replaced by an exact injective representative (unit vectors as
     (sign, component²/normSq), the foot point of the origin for a Line, the signed offset for a Plane).
-    Full for Point/Vector, Line, Plane, Segment, HalfLine.  For ConvexPolygon / ConvexPolyhedron `==` IS hash
-    equality in the code, so `a == b ⇒ hash equal` is immediate, and "same set ⇔ equal" needs the canonical-cycle
-    kernel K6: decided per run by the correspondence (partial).
+    Full for Point/Vector, Line, Plane, Segment, HalfLine.  For ConvexPolygon / ConvexPolyhedron `==` IS equality of hash SUMS in
+    the code; the model compares vertex sets and planes / face sets, which is proved ⇔ same point set (`Proofs/SameSet.lean`);
+    that equal sums stand for equal sets is the modelling idealisation, decided per run.
     Trusted: equal keys ⇒ equal Python hash (deterministic tuple hash); the converse is probabilistic, not claimed. -/
 namespace G3D.Props.C08
 open G3D V3 G3D.Dispatch
